@@ -991,3 +991,206 @@ func enumConsts(n *types.Named) []*types.Const {
 	}
 	return out
 }
+
+// ---- R3e / R48 ----
+
+func init() {
+	register(&Rule{ID: "R3e", Title: "accumulator-reset: a slice field that a node's loop appends to is also re-initialised somewhere in that loop", Min: 4, Run: ruleR3e})
+	register(&Rule{ID: "R48", Title: "sibling-agreement: trace-handler clauses that change the same tracked state raise the same notification flags", Min: 1, Run: ruleR48})
+}
+
+func ruleR3e(c *Ctx) {
+	p := c.P
+	ce := chanEngine(p)
+	runOf := map[*types.Named]*FuncInfo{}
+	for _, l := range ce.Launches() {
+		if l.Root == nil || l.Root.Obj == nil || l.Root.Obj.Name() != "run" || l.Root.Pkg.PkgPath != pathBpmn {
+			continue
+		}
+		if rn := recvNamed(l.Root.Obj); rn != nil {
+			runOf[rn] = l.Root
+		}
+	}
+	var ts []*types.Named
+	for n := range runOf {
+		ts = append(ts, n)
+	}
+	sort.Slice(ts, func(i, j int) bool { return ts[i].Obj().Name() < ts[j].Obj().Name() })
+	for _, T := range ts {
+		// methods of T (the run tree is a subset; constructors are not methods)
+		type st struct {
+			appendAt ast.Node
+			appendF  *FuncInfo
+			fresh    bool
+		}
+		fields := map[*types.Var]*st{}
+		for _, f := range p.Funcs {
+			r := f.Root()
+			if r.Obj == nil || recvNamed(r.Obj) != T {
+				continue
+			}
+			in := info(f)
+			inspectNoLit(f.Body, func(m ast.Node) bool {
+				as, ok := m.(*ast.AssignStmt)
+				if !ok {
+					return true
+				}
+				for i, l := range as.Lhs {
+					fv := fieldOf(in, l)
+					if fv == nil || i >= len(as.Rhs) {
+						continue
+					}
+					if _, isSlice := fv.Type().Underlying().(*types.Slice); !isSlice {
+						continue
+					}
+					s := fields[fv]
+					if s == nil {
+						s = &st{}
+						fields[fv] = s
+					}
+					self := false
+					inspectNoLit(as.Rhs[i], func(z ast.Node) bool {
+						if e, ok := z.(ast.Expr); ok && fieldOf(in, e) == fv {
+							self = true
+						}
+						return true
+					})
+					if call, ok := unparen(as.Rhs[i]).(*ast.CallExpr); ok && isBuiltin(in, call, "append") && self {
+						s.appendAt, s.appendF = as, f
+					} else if !self {
+						s.fresh = true
+					}
+				}
+				return true
+			})
+		}
+		var fvs []*types.Var
+		for fv := range fields {
+			fvs = append(fvs, fv)
+		}
+		sort.Slice(fvs, func(i, j int) bool { return fvs[i].Name() < fvs[j].Name() })
+		// the node's loop: run and the methods of T it calls
+		loopFns := map[*FuncInfo]bool{}
+		var addFn func(f *FuncInfo)
+		addFn = func(f *FuncInfo) {
+			if loopFns[f] {
+				return
+			}
+			loopFns[f] = true
+			in := info(f)
+			inspectNoLit(f.Body, func(m ast.Node) bool {
+				if call, ok := m.(*ast.CallExpr); ok {
+					if fn := callee(in, call); fn != nil && recvNamed(fn) == T {
+						if cf := p.byObj[fn]; cf != nil {
+							addFn(cf)
+						}
+					}
+				}
+				return true
+			})
+		}
+		addFn(runOf[T])
+		for _, fv := range fvs {
+			s := fields[fv]
+			if s.appendAt == nil || !loopFns[s.appendF.Root()] {
+				continue
+			}
+			c.Check(s.fresh, s.appendF, s.appendAt, "accumulator "+T.Obj().Name()+"."+fv.Name(), "a slice field that the node's loop appends to per arrival is re-initialised (assigned a value that does not mention itself) by some method of the node; otherwise what one activation accumulated is still there in the next", fmt.Sprintf("non-self assignment to %s in a method of %s: %v", fv.Name(), T.Obj().Name(), s.fresh))
+		}
+	}
+}
+
+func ruleR48(c *Ctx) {
+	p := c.P
+	n := 0
+	seen := map[*ast.TypeSwitchStmt]bool{}
+	for _, cl := range typeSwitches(p, isITrace) {
+		if seen[cl.Switch] {
+			continue
+		}
+		seen[cl.Switch] = true
+		f := cl.Func
+		in := info(f)
+		// clauses of this switch: which receiver fields do they write, which bool locals do they set to true?
+		type ci struct {
+			clause *ast.CaseClause
+			writes map[*types.Var]bool
+			flags  map[types.Object]bool
+		}
+		var cis []ci
+		for _, s := range cl.Switch.Body.List {
+			cc := s.(*ast.CaseClause)
+			x := ci{cc, map[*types.Var]bool{}, map[types.Object]bool{}}
+			for _, st := range cc.Body {
+				inspectNoLit(st, func(m ast.Node) bool {
+					switch y := m.(type) {
+					case *ast.AssignStmt:
+						for i, l := range y.Lhs {
+							target := l
+							if ix, ok := unparen(l).(*ast.IndexExpr); ok {
+								target = ix.X
+							}
+							if fv := fieldOf(in, target); fv != nil {
+								x.writes[fv] = true
+							}
+							if id, ok := unparen(l).(*ast.Ident); ok && i < len(y.Rhs) {
+								if r, ok := unparen(y.Rhs[i]).(*ast.Ident); ok && r.Name == "true" {
+									if o := objOf(in, id); o != nil {
+										x.flags[o] = true
+									}
+								}
+							}
+						}
+					case *ast.CallExpr:
+						if isBuiltin(in, y, "delete") && len(y.Args) > 0 {
+							if fv := fieldOf(in, y.Args[0]); fv != nil {
+								x.writes[fv] = true
+							}
+						}
+					}
+					return true
+				})
+			}
+			cis = append(cis, x)
+		}
+		// group by written field
+		byField := map[*types.Var][]ci{}
+		for _, x := range cis {
+			for fv := range x.writes {
+				byField[fv] = append(byField[fv], x)
+			}
+		}
+		for fv, group := range byField {
+			if len(group) < 2 {
+				continue
+			}
+			union := map[types.Object]bool{}
+			for _, x := range group {
+				for o := range x.flags {
+					union[o] = true
+				}
+			}
+			if len(union) == 0 {
+				continue
+			}
+			n++
+			for _, x := range group {
+				var missing []string
+				for o := range union {
+					if !x.flags[o] {
+						missing = append(missing, o.Name())
+					}
+				}
+				sort.Strings(missing)
+				var ts []string
+				for _, e := range x.clause.List {
+					ts = append(ts, typeString(in.TypeOf(e)))
+				}
+				c.Check(len(missing) == 0, f, x.clause, "case "+strings.Join(ts, ",")+" changes "+fv.Name(), "case clauses of one trace handler that change the same tracked state ("+fv.Name()+") raise the same notification flags: a clause that changes the state without raising the flag its siblings raise leaves the consumer of that state unaware of the change", ifEmpty(strings.Join(missing, ","), "sets the same flags as its siblings")+ifNotEmpty(missing, " not set to true in this clause"))
+			}
+		}
+	}
+	if n == 0 {
+		c.Missing("trace handler with sibling clauses", "no trace handler has two clauses changing the same state and raising a flag (the inclusive join's tracker is expected)")
+	}
+}
